@@ -76,7 +76,7 @@ theorem ruleStep_typed {wn : WalkFn σ} (hwn : NodeOK cfg cx F wn) (path : Path)
         simp only [absRule, Res.ok] at hb hn ⊢
         simp only [ruleStep] at h
         exact attrValue_typed hc F hwn path src _ pos _ (.str t) s cs s'
-          (.tok t (by simp [Abs.ofSyms]) (by simp [Abs.ofSyms])) h
+          (.tok t ((SymSet.mem_ofList _ _).mpr (by simp)) ((SymSet.mem_ofList _ _).mpr (by simp))) h
       | none =>
         simp only [absRule, Res.ok] at hb hn ⊢
         simp only [ruleStep, isEmptyVal, if_true, Except.ok.injEq, Prod.mk.injEq] at h
